@@ -244,6 +244,7 @@ for _p, _x in RULE_EXTRA.items():
     CHECKS[_p]["rule"] += " " + _x
 # quick deadlines leave a factor of about three over the time on 16 idle cores (the checks stop cleanly at the
 # deadline and say so: exhaustive=false)
+CHECKS["C20"]["replay_min"] = 1
 CHECKS["C16"]["deadline"]["quick"] = 240
 CHECKS["C08"]["deadline"]["quick"] = 300
 CHECKS["C09"]["deadline"]["quick"] = 240
